@@ -341,6 +341,44 @@ theorem replace (hi : InvC c sl) {src k : Nat} {hs h2 h' : HV} (hms : (src, hs) 
       omega
     · exact absurd hk hk'
 
+/-- two distinct slots exchange the blocks they refer to: every block keeps its number of owners -/
+theorem _root_.M1.ownersL_swap {sl : Slots} (hkeys : (sl.map (·.1)).Nodup) {src k : Nat} {hs h2 hk' hs' : HV}
+    (hms : (src, hs) ∈ sl) (hmk : (k, h2) ∈ sl) (hne : k ≠ src) (hbk : hk'.blk = hs.blk)
+    (hbs : hs'.blk = h2.blk) (j : Nat) :
+    ownersL (setL (setL sl k hk') src hs') j = ownersL sl j := by
+  have hk1 : ((setL sl k hk').map (·.1)).Nodup := by rw [keys_setL]; exact hkeys
+  have hms' : (src, hs) ∈ setL sl k hk' := mem_setL_of_ne hms (fun e => hne e.symm)
+  have h1 := ownersL_set (h' := hk') hkeys hmk j
+  have h2' := ownersL_set (h' := hs') hk1 hms' j
+  rw [hbk] at h1
+  rw [hbs] at h2'
+  omega
+
+/-- `with_arc_mut(|a| mem::swap(a, &mut <thin taken out of slot k>))`, the spare going back into
+slot `k`: slots `k` and `src` exchange the blocks they refer to, no count changes -/
+theorem swap (hi : InvC c sl) {src k : Nat} {hs h2 hk' hs' : HV} (hms : (src, hs) ∈ sl)
+    (hmk : (k, h2) ∈ sl) (hne : k ≠ src) (hbk : hk'.blk = hs.blk) (hbs : hs'.blk = h2.blk)
+    (hkk : hk'.kind ≠ .uniq) (hks : hs'.kind ≠ .uniq) :
+    InvC c (setL (setL sl k hk') src hs') := by
+  have hk1 : ((setL sl k hk').map (·.1)).Nodup := by rw [keys_setL]; exact hi.keys
+  have how := ownersL_swap hi.keys hms hmk hne hbk hbs
+  refine ⟨?_, ?_, ?_, ?_⟩
+  · intro j; rw [how]; exact hi.good j
+  · intro e he
+    rcases mem_setL he with ⟨he', _⟩ | ⟨rfl, _⟩
+    · rcases mem_setL he' with ⟨he'', _⟩ | ⟨rfl, _⟩
+      · exact hi.inb e he''
+      · simp only [hbk]; exact hi.inb _ hms
+    · simp only [hbs]; exact hi.inb _ hmk
+  · rw [keys_setL]; exact hk1
+  · intro e he hu
+    rw [how]
+    rcases mem_setL he with ⟨he', _⟩ | ⟨rfl, _⟩
+    · rcases mem_setL he' with ⟨he'', _⟩ | ⟨rfl, _⟩
+      · exact hi.uniq e he'' hu
+      · exact absurd hu hkk
+    · exact absurd hu hks
+
 end InvC
 
 end M1
